@@ -27,6 +27,7 @@ RULE = ('Seeded random cases: a logical dataset of 1-8 clients (hostile id class
         'tracing, or row-count-changing "keep first m rows"); preprocess_batch}, applied identically to 5 stacks; all '
         'observations on all stacks and all ancestors after every operation. Non-trivial: the history has >= 1 operation; '
         'distinct by (id tuple, rows per client, feature names, operation descriptions).')
+RULE += (' Wave-4 additions: interleaved scans on one view object (half-consumed shuffled stream / client_ids / client_sizes / clients resumed after other scans; two clients() iterators in lock step); the first 25 (quick) / 60 (thorough) histories of each shard are replayed in a fresh interpreter under another PYTHONHASHSEED and must expose identical iteration orders.')
 ASSUMPTIONS = [
     'bytes comparison in Python (lexicographic, unsigned) is the order meant by "half-open range" (it is also SQLite BLOB order)',
     'generated preprocessors are pure and per-row (batch level) so all_examples() and concatenated batch() must agree',
